@@ -284,7 +284,7 @@ package evaluator
 //@ axiom forall h Heap, x Val, y Val :: {specEq(h, x, y)} isObj(x) ==> specEq(h, x, y) == (isObj(y) && mlen(h, obj(x)) == mlen(h, obj(y)) && (forall k Int :: {mhasKey(h, obj(x), k)} mhasKey(h, obj(x), k) ==> mhasKey(h, obj(y), k) && specEq(h, mgetKey(h, obj(x), k), mgetKey(h, obj(y), k))))
 
 //@ func equal
-//@   tags C20 C14 C05
+//@   tags C20 C14 C05 C01
 //@   ensures spec: result == specEq(heap, x, y)
 //@   loop 1
 //@     invariant isArr(x0) && isArr(y0) && x == arr(x0) && y == arr(y0) && len(x) == len(y)
